@@ -216,6 +216,7 @@ func (s *sim) onCall(c *appCall) {
 			e.Count("probe.retry_snapshot_reoffer")
 		} else {
 			m.reset()
+			s.hadRetrySnap, s.reqSinceRetry = false, map[uint32]bool{}
 			m.epoch, m.key, m.h, m.f, m.n, m.k = s.dirEpoch, key, c.h, c.f, c.n, s.catIndex(key)
 			m.phase = "offered"
 			for _, a := range s.arrivals {
@@ -322,6 +323,7 @@ func (s *sim) onVerdict(c *appCall) {
 		case abci.ResponseApplySnapshotChunk_RETRY_SNAPSHOT:
 			m.returned = map[uint32]bool{}
 			m.phase = "retry"
+			s.hadRetrySnap, s.reqSinceRetry = true, map[uint32]bool{}
 		case abci.ResponseApplySnapshotChunk_REJECT_SNAPSHOT:
 			s.rejectedSnap[m.key] = true
 			m.phase = "ended"
